@@ -129,19 +129,45 @@ def _add_accessible():
     return find_func(_module(), '_add_accessible')
 
 
-def checked_value_props():
-    """`if propname in {'value', 'default', 'constant'}: accessible.datatype(cfg[propname])`"""
+def _cfg_try():
     f = _add_accessible()
-    for node in walk_type(f, ast.If):
-        t = node.test
-        if isinstance(t, ast.Compare) and len(t.ops) == 1 and isinstance(t.ops[0], ast.In) \
-                and isinstance(t.comparators[0], ast.Set):
-            names = sorted(const(e) for e in t.comparators[0].elts)
-            body = src(node.body[0]).replace(' ', '')
-            if body != 'accessible.datatype(cfg[propname])':
-                raise Shape('datatype check of value/default/constant not found')
-            return 'list (list N)', _strlist(names)
-    raise Shape('set membership test not found')
+    tries = [t for t in walk_type(f, ast.Try)]
+    if len(tries) != 1:
+        raise Shape('_add_accessible: expected exactly one try statement')
+    return tries[0]
+
+
+def checked_value_props():
+    """since 8b6cdcd: the SECOND loop of the try block, `for propname in ('value', 'default', 'constant'):
+    if propname in cfg: accessible.datatype(cfg[propname])` - the names in the order of the tuple"""
+    body = _cfg_try().body
+    if len(body) != 2 or not all(isinstance(n, ast.For) for n in body):
+        raise Shape('_add_accessible: the try block is not exactly two for loops')
+    loop = body[1]
+    if not (isinstance(loop.target, ast.Name) and loop.target.id == 'propname' and isinstance(loop.iter, ast.Tuple)
+            and not loop.orelse and len(loop.body) == 1 and isinstance(loop.body[0], ast.If)):
+        raise Shape('_add_accessible: second loop is not `for propname in (<names>): if ...`')
+    test = loop.body[0]
+    if src(test.test).replace(' ', '') != 'propnameincfg' or test.orelse or len(test.body) != 1 or \
+            src(test.body[0]).replace(' ', '') != 'accessible.datatype(cfg[propname])':
+        raise Shape('datatype check of value/default/constant not found in the second loop')
+    return 'list (list N)', _strlist([const(e) for e in loop.iter.elts])
+
+
+def properties_applied_before_value_checks():
+    """since 8b6cdcd: the try block of _add_accessible is exactly (1) `for propname, propvalue in cfg.items():
+    accessible.setProperty(propname, propvalue)` - nothing else in the body, in particular no datatype check - and
+    (2) the loop of checked_value_props: value, default and constant are checked by the datatype AFTER all properties of
+    the entry (which may change the datatype) are applied, whatever the order of the dict"""
+    body = _cfg_try().body
+    if len(body) != 2 or not all(isinstance(n, ast.For) for n in body):
+        raise Shape('_add_accessible: the try block is not exactly two for loops')
+    first = body[0]
+    ok = src(first.iter).replace(' ', '') == 'cfg.items()' and \
+        src(first.target).replace(' ', '') in ('propname,propvalue', '(propname,propvalue)') and not first.orelse and \
+        [src(n).replace(' ', '') for n in first.body] == ['accessible.setProperty(propname,propvalue)']
+    ok = ok and src(_add_accessible()).count('accessible.datatype(') == 1
+    return 'bool', cbool(ok)
 
 
 def _handlers(f):
@@ -164,7 +190,7 @@ def add_accessible_catches_exactly_key_and_badvalue():
     the loop applies every property with accessible.setProperty"""
     t, hs = _handlers(_add_accessible())
     loop = [n for n in t.body if isinstance(n, ast.For)]
-    ok = sorted(hs) == ['BadValueError', 'KeyError'] and len(loop) == 1 and \
+    ok = sorted(hs) == ['BadValueError', 'KeyError'] and len(loop) == 2 and \
         'accessible.setProperty(propname,propvalue)' in src(loop[0]).replace(' ', '') and \
         all('self.errors.append' in src(h) for h in t.handlers)
     return 'bool', cbool(ok)
@@ -529,10 +555,6 @@ def param_value_appended_after_overrides():
         ok = ok and isinstance(second, ast.Expr) and src(second).replace(' ', '') == 'super().__init__(**kwds)'
     # nothing else of the class touches the items (no __setitem__/__iter__/items override)
     ok = ok and [n.name for n in cls.body if isinstance(n, ast.FunctionDef)] == ['__init__']
-    # _add_accessible walks the entry in dict order
-    loops = [n for n in walk_type(_add_accessible(), ast.For)]
-    ok = ok and len(loops) == 1 and src(loops[0].iter).replace(' ', '') == 'cfg.items()' and \
-        src(loops[0].target).replace(' ', '') in ('propname,propvalue', '(propname,propvalue)')
     return 'bool', cbool(ok)
 
 
@@ -546,7 +568,7 @@ def float_default_relres():
     raise Shape('FloatRange.relative_resolution not found')
 
 
-FACTS = [module_props, param_props, command_props, checked_value_props,
+FACTS = [module_props, param_props, command_props, checked_value_props, properties_applied_before_value_checks,
          add_accessible_catches_exactly_key_and_badvalue, param_setproperty_wraps_badvalue,
          checks_only_without_errors_and_raise, unknown_names_reported, module_props_popped_and_badvalue_collected,
          writedict_only_with_write_method, needscfg_and_uninit_marker, writes_before_first_polls,
